@@ -10,8 +10,8 @@
       - the two validator sets of every proposed header held by the voting / next-round view (one
         of them becomes the committing header, its next set becomes the voting set).
     It is inductive as long as the validator sets carried by ACCEPTED inputs have non-zero total
-    power ([op_wf]); the kernel itself never checks that, and without it the statement is false
-    ([message_panics_refuted] at the end of this file).  *)
+    power ([step_adm]; [op_wf] is the result-independent form); the kernel itself never checks
+    that, and without it the statement is false ([message_panics_refuted] at the end of this file).  *)
 From Coq Require Import List NArith Arith Bool Lia String.
 From GV Require Import Base.Ints Gen.Math Gen.Kernel Model.Mirror
   Proofs.Thresholds Proofs.MirrorAuth Proofs.MirrorNoop Proofs.MirrorChain Proofs.MirrorCert.
@@ -327,11 +327,11 @@ Proof.
 Qed.
 
 Lemma handle_ph_loop_total fuel : forall backfilled s p, tinv s ->
-  okT (fun sr => hdr_wf (ph_hdr p) -> tinv (fst sr)) (handle_ph_loop fuel backfilled s p).
+  okT (fun sr => (snd sr = HandleProposedHeaderAccepted -> hdr_wf (ph_hdr p)) -> tinv (fst sr)) (handle_ph_loop fuel backfilled s p).
 Proof.
   assert (Hbody : forall s p proposer prev_hash prev_vs,
     tinv s -> (vs_keys prev_vs = [] \/ pow_ok prev_vs) ->
-    okT (fun sr => hdr_wf (ph_hdr p) -> tinv (fst sr))
+    okT (fun sr => (snd sr = HandleProposedHeaderAccepted -> hdr_wf (ph_hdr p)) -> tinv (fst sr))
     (let hd := ph_hdr p in
       if negb (hd_ok hd) then Ok (s, HandleProposedHeaderBadBlockHash)
       else if negb (vs_ok (hd_vals hd) && vs_ok (hd_next hd)) then Ok (s, HandleProposedHeaderBadBlockHash)
@@ -365,7 +365,7 @@ Proof.
             else accept
         end)).
   { intros s p proposer prev_hash prev_vs H Hpv. cbv zeta.
-    assert (Hsame : forall r0, okT (fun sr : kstate * N => hdr_wf (ph_hdr p) -> tinv (fst sr)) (Ok (s, r0)))
+    assert (Hsame : forall r0, okT (fun sr : kstate * N => (snd sr = HandleProposedHeaderAccepted -> hdr_wf (ph_hdr p)) -> tinv (fst sr)) (Ok (s, r0)))
       by (intros r0; apply okT_ret; intros _; exact H).
     destruct (negb (hd_ok _)); [apply Hsame|].
     destruct (negb (_ && _)); [apply Hsame|].
@@ -373,9 +373,10 @@ Proof.
     destruct (negb (verify_prop _ _ _ _)); [apply Hsame|].
     destruct (negb _ && negb _); [apply Hsame|].
     destruct (negb (bytes_eqb _ _)); [apply Hsame|].
-    assert (Hacc : okT (fun sr : kstate * N => hdr_wf (ph_hdr p) -> tinv (fst sr))
+    assert (Hacc : okT (fun sr : kstate * N => (snd sr = HandleProposedHeaderAccepted -> hdr_wf (ph_hdr p)) -> tinv (fst sr))
                      (bind (add_ph s p) (fun s' => Ok (s', HandleProposedHeaderAccepted)))).
-    { eapply okT_bind; [apply add_ph_total; exact H|]. cbv beta. intros s' Hs'. apply okT_ret. exact Hs'. }
+    { eapply okT_bind; [apply add_ph_total; exact H|]. cbv beta. intros s' Hs'. apply okT_ret.
+      cbn [fst snd]. intros Hw. apply Hs', Hw. reflexivity. }
     destruct (k_init_h s <? _); [|exact Hacc].
     destruct (vs_keys prev_vs) as [|k0 kl] eqn:Hk; [apply Hsame|].
     destruct (validate_finalized _ _ _ _ _) as [[bits|] [|]]; try apply Hsame.
@@ -384,7 +385,7 @@ Proof.
     destruct (_ <? maj); [apply Hsame|exact Hacc]. }
   induction fuel as [|f IH]; intros backfilled s p H; cbn [handle_ph_loop];
     destruct (ph_check s p) as [status proposer prev_hash prev_vs] eqn:Hc.
-  all: assert (Hsame : forall r0, okT (fun sr : kstate * N => hdr_wf (ph_hdr p) -> tinv (fst sr)) (Ok (s, r0)))
+  all: assert (Hsame : forall r0, okT (fun sr : kstate * N => (snd sr = HandleProposedHeaderAccepted -> hdr_wf (ph_hdr p)) -> tinv (fst sr)) (Ok (s, r0)))
          by (intros r0; apply okT_ret; intros _; exact H).
   all: pose proof (ph_check_prev_vs _ _ _ _ _ _ (proj1 H) Hc) as Hpv.
   all: destruct (status =? PHCheckAlreadyHaveSignature); [apply Hsame|].
@@ -401,7 +402,7 @@ Proof.
 Qed.
 
 Lemma handle_ph_total s p : tinv s ->
-  okT (fun sr => hdr_wf (ph_hdr p) -> tinv (fst sr)) (handle_ph s p).
+  okT (fun sr => (snd sr = HandleProposedHeaderAccepted -> hdr_wf (ph_hdr p)) -> tinv (fst sr)) (handle_ph s p).
 Proof.
   intros H. unfold handle_ph. destruct (ph_key p).
   - apply handle_ph_loop_total; exact H.
@@ -614,6 +615,18 @@ Definition op_wf (o : op) : Prop :=
   | _ => True
   end.
 
+(** what the history really needs: only a proposed header that the mirror ACCEPTED must carry
+    validator sets of non-zero power (rejected ones never enter a view) *)
+Definition step_adm (o : op) (res : N) : Prop :=
+  match o with
+  | OpPH p => res = HandleProposedHeaderAccepted -> hdr_wf (ph_hdr p)
+  | OpReplay x cp => pow_ok (hd_next x) /\ cp_round cp < two32
+  | _ => True
+  end.
+
+Lemma op_wf_step_adm o res : op_wf o -> step_adm o res.
+Proof. destruct o; cbn; auto. Qed.
+
 Definition replay_round_bounded (o : op) : Prop :=
   match o with OpReplay _ cp => cp_round cp < two32 | _ => True end.
 
@@ -624,14 +637,14 @@ Lemma step_total ih ivs s o :
   INV ih ivs s -> tinv s -> replay_round_bounded o ->
   match o with
   | OpReplay x cp =>
-      (okT (fun sr => op_wf o -> tinv (fst sr)) (step s o) /\
+      (okT (fun sr => step_adm o (snd sr) -> tinv (fst sr)) (step s o) /\
        replay_earlier_guard s x cp = false /\ replay_refused_guard s x cp = false) \/
       (replay_earlier_guard s x cp = true /\ step s o = Panic site_replay_earlier) \/
       (replay_refused_guard s x cp = true /\ step s o = Panic site_replay_refused)
-  | _ => okT (fun sr => op_wf o -> tinv (fst sr)) (step s o)
+  | _ => okT (fun sr => step_adm o (snd sr) -> tinv (fst sr)) (step s o)
   end.
 Proof.
-  intros HI HT Hb. destruct o as [p|m|m|x cp]; cbn [step op_wf].
+  intros HI HT Hb. destruct o as [p|m|m|x cp]; cbn [step step_adm].
   - apply handle_ph_total; exact HT.
   - eapply okT_mono; [apply handle_votes_total; exact HT|]. cbv beta. intros sr H _. exact H.
   - eapply okT_mono; [apply handle_votes_total; exact HT|]. cbv beta. intros sr H _. exact H.
@@ -641,12 +654,15 @@ Proof.
     + right; right; exact H.
 Qed.
 
+Lemma step_adm_round_bounded o res : step_adm o res -> replay_round_bounded o.
+Proof. destruct o; cbn; tauto. Qed.
+
 Lemma tinv_step ih ivs s o s' r :
-  INV ih ivs s -> tinv s -> op_wf o -> step s o = Ok (s', r) -> tinv s'.
+  INV ih ivs s -> tinv s -> step_adm o r -> step s o = Ok (s', r) -> tinv s'.
 Proof.
   intros HI HT Hw Hs.
-  pose proof (step_total ih ivs s o HI HT (op_wf_round_bounded o Hw)) as H.
-  assert (G : okT (fun sr => op_wf o -> tinv (fst sr)) (step s o) -> tinv s').
+  pose proof (step_total ih ivs s o HI HT (step_adm_round_bounded o r Hw)) as H.
+  assert (G : okT (fun sr => step_adm o (snd sr) -> tinv (fst sr)) (step s o) -> tinv s').
   { intros (x&E&Hx). rewrite Hs in E. inversion E; subst x. exact (Hx Hw). }
   destruct o as [p|m|m|x cp]; try (apply G; exact H).
   destruct H as [(H&_)|[(_&H)|(_&H)]]; [apply G; exact H| |]; rewrite Hs in H; discriminate.
@@ -662,7 +678,7 @@ Qed.
 (** states reachable through admissible inputs *)
 Inductive reachable_a (ih : N) (ivs : valset) : kstate -> Prop :=
 | ra_init : reachable_a ih ivs (init_state ih ivs)
-| ra_step s o s' res : reachable_a ih ivs s -> op_bounded o -> op_wf o ->
+| ra_step s o s' res : reachable_a ih ivs s -> op_bounded o -> step_adm o res ->
     step s o = Ok (s', res) -> reachable_a ih ivs s'.
 
 Lemma reachable_a_b ih ivs s : reachable_a ih ivs s -> reachable_b ih ivs s.
@@ -706,7 +722,7 @@ Proof.
   pose proof (reachable_tinv ih ivs s Hi Hok Hp Hr) as HT.
   pose proof (reachable_INV ih ivs s Hi Hok (reachable_a_b _ _ _ Hr)) as HI.
   pose proof (step_total ih ivs s o HI HT Hb) as H.
-  assert (G : okT (fun sr => op_wf o -> tinv (fst sr)) (step s o) -> exists s' r, step s o = Ok (s', r)).
+  assert (G : okT (fun sr => step_adm o (snd sr) -> tinv (fst sr)) (step s o) -> exists s' r, step s o = Ok (s', r)).
   { intros ([s' r]&E&_). exists s', r. exact E. }
   destruct o as [p|m|m|x cp]; try (apply G; exact H).
   destruct H as [(H&G1&G2)|[H|H]]; [left; split; [apply G; exact H|split; assumption]|right; left; exact H|right; right; exact H].
@@ -724,7 +740,7 @@ Theorem kernel_total_in_good_states ih ivs s o :
   end.
 Proof.
   intros HI HT Hb. pose proof (step_total ih ivs s o HI HT Hb) as H.
-  assert (G : okT (fun sr => op_wf o -> tinv (fst sr)) (step s o) -> exists s' r, step s o = Ok (s', r)).
+  assert (G : okT (fun sr => step_adm o (snd sr) -> tinv (fst sr)) (step s o) -> exists s' r, step s o = Ok (s', r)).
   { intros ([s' r]&E&_). exists s', r. exact E. }
   destruct o as [p|m|m|x cp]; try (apply G; exact H).
   destruct H as [(H&_)|[(_&H)|(_&H)]]; [left; apply G; exact H|right; left; exact H|right; right; exact H].
@@ -772,6 +788,33 @@ Proof.
     rewrite H in E; [discriminate| |]; unfold site_replay_earlier, site_replay_refused, site_replay_fuel in E; discriminate.
 Qed.
 
+(** The round bound on a replayed commit proof is needed in the MODEL only: its rounds are [N],
+    the views' rounds wrap at 2^32, so a replayed round >= 2^32 is never reached by the jump loop.
+    (In Go the round is a uint32; the model would be tighter with [wrap32 (cp_round cp)].) *)
+Lemma jump_until_round_lt ih ivs fuel : forall s r,
+  cinv ih ivs s -> v_r (k_vot s) < two32 -> v_r (k_vot (jump_until fuel s r)) < two32.
+Proof.
+  induction fuel as [|f IH]; intros s r H Hlt; cbn [jump_until]; [exact Hlt|].
+  destruct (_ <? _); [|exact Hlt]. apply IH; [apply cinv_jump; exact H|].
+  destruct H as (_&_&_&_&Hnr&_).
+  unfold jump_voting_round, update_observers, increment_voting_round.
+  cbn [k_vot set_vot set_nxt ev_w log_w set_nhr v_r bump]. rewrite Hnr.
+  unfold wrap32. apply N.mod_upper_bound. unfold two32. lia.
+Qed.
+
+Lemma replay_fuel_panics ih ivs s x cp :
+  cinv ih ivs s -> hd_height x = v_h (k_vot s) -> v_r (k_vot s) < two32 -> two32 <= cp_round cp ->
+  step s (OpReplay x cp) = Panic site_replay_fuel.
+Proof.
+  intros H Hh Hlt Hge. cbn [step]. rewrite handle_replay_eq. unfold handle_replay'.
+  rewrite Hh, N.eqb_refl. cbn [negb].
+  destruct (N.ltb_spec (cp_round cp) (v_r (k_vot s))) as [Hc|_]; [lia|]. cbv zeta.
+  pose proof (jump_until_round_lt ih ivs (N.to_nat (cp_round cp - v_r (k_vot s))) s (cp_round cp) H Hlt) as Hj.
+  fold (replay_jumped s cp) in Hj.
+  destruct (N.eqb_spec (v_r (k_vot (replay_jumped s cp))) (cp_round cp)) as [E|_]; [lia|].
+  reflexivity.
+Qed.
+
 (** * Concrete runs: reachability by construction *)
 Fixpoint run (s : kstate) (ops : list op) : res kstate :=
   match ops with
@@ -811,7 +854,7 @@ Proof.
   - intros E; inversion E; subst; exact Hr.
   - cbn [forallb] in Hf. apply andb_true_iff in Hf as [Ho Hf]. apply andb_true_iff in Ho as [Ho1 Ho2].
     destruct (step s o) as [[s1 r1]|] eqn:Hs; cbn [bind fst]; [|discriminate].
-    apply IH; [|exact Hf]. eapply ra_step; [exact Hr|apply op_bounded_b_ok; exact Ho1|apply op_wf_b_ok; exact Ho2|exact Hs].
+    apply IH; [|exact Hf]. eapply ra_step; [exact Hr|apply op_bounded_b_ok; exact Ho1|apply op_wf_step_adm, op_wf_b_ok; exact Ho2|exact Hs].
 Qed.
 
 Lemma run_reachable_b ih ivs ops : forall s s',
@@ -857,6 +900,17 @@ Qed.
 (** the hypotheses of the theorem are satisfiable *)
 Example ex_hypotheses : 1 <= 1 /\ vs_ok ex_vs = true /\ 0 < sum_pows (vs_pows ex_vs).
 Proof. vm_compute. repeat split; discriminate. Qed.
+
+(** the fuel site of the model is hit by a replayed round that is not a uint32 *)
+Example replay_fuel_site_needs_round_bound :
+  step (init_state 1 ex_vs) (OpReplay (ex_hdr ex_vs ex_vs) (mk_cproof two32 [1] [])) = Panic site_replay_fuel.
+Proof.
+  apply (replay_fuel_panics 1 ex_vs).
+  - apply cinv_init; [lia|reflexivity].
+  - reflexivity.
+  - vm_compute. reflexivity.
+  - cbn [cp_round]. lia.
+Qed.
 
 (** ** Site 1 of [handle_replay] is reachable: a nil precommit of the whole power moves the mirror
     to round 1; the driver then replays a header of that height with a round-0 commit proof. *)
